@@ -162,6 +162,12 @@ pub fn mutate(r: &mut Rng, c: &DocCfg, v: &Value<'static>) -> Value<'static> {
         }
         Value::Object(o) => {
             let mut o = o.clone();
+            // a key re-spelled in the other letter case (names are matched exactly, except where a flag says otherwise)
+            if !o.is_empty() && r.chance(1, 8) {
+                let k = o.keys().nth(r.below(o.len() as u64) as usize).unwrap().clone();
+                let k2: String = k.chars().map(|ch| if ch.is_ascii_lowercase() { ch.to_ascii_uppercase() } else { ch.to_ascii_lowercase() }).collect();
+                if k2 != k && !o.contains_key(&k2) { let x = o.remove(&k).unwrap(); o.insert(k2, x); return Value::Object(o); }
+            }
             match r.below(5) {
                 0 if !o.is_empty() => { let k = o.keys().nth(r.below(o.len() as u64) as usize).unwrap().clone(); o.remove(&k); }
                 1 => { o.insert(gen_key(r), gen_value(r, c, 1)); }
@@ -170,6 +176,8 @@ pub fn mutate(r: &mut Rng, c: &DocCfg, v: &Value<'static>) -> Value<'static> {
             }
             Value::Object(o)
         }
+        // the neighbouring double (one unit in the last place up or down), of either sign
+        Value::Number(Number::Float64(f)) if f.is_finite() && r.chance(1, 3) => { let b = f.to_bits(); let nb = if r.chance(1, 2) { b.wrapping_add(1) } else { b.wrapping_sub(1) }; let g = f64::from_bits(nb); Value::Number(Number::Float64(if g.is_finite() { g } else { *f })) }
         Value::Number(n) => if r.chance(1, 8) { Value::Array(vec![v.clone()]) } else { Value::Number(retype(r, n)) },
         Value::String(_) if r.chance(1, 8) => Value::Array(vec![v.clone()]),
         Value::String(s) => Value::String(std::borrow::Cow::Owned(format!("{}{}", s, r.pick(&["", "a", "\u{1}", "\u{0}", "z"])))),
